@@ -2,7 +2,7 @@
 from . import ipgen, ipref
 from .ipcommon import MODEL_DEPS, TRUSTED_BASE, ASSUMPTIONS  # noqa
 
-COQ_DEPS = ["lib/PPCore.v", "lib/PPHost.v", "lib/Memo.v", "lib/MemoProofs.v", "lib/Pinned.v", "lib/Str.v", "lib/Mask.v", "lib/Md5.v", "model/IpModel.v"]
+COQ_DEPS = ["lib/PPCore.v", "lib/PPHost.v", "lib/Memo.v", "lib/MemoProofs.v", "lib/Pinned.v", "lib/Str.v", "lib/Mask.v", "lib/Md5.v", "model/IpModel.v", "lib/PyLib.v", "gen/G_fn_ip.v", "refine/RefMask.v"]
 RULE = ("_is_mask on all 66 mask/wildcard values, all their one-bit perturbations and random values, against a string-shape oracle; should_anonymize and images for "
         "addresses inside/outside preserved networks (first/last/neighbours/random), every B; "
         "non-trivial = a distinct 32-bit value tested for mask shape, or an outside address whose image was tested for collision")
